@@ -697,10 +697,19 @@ func isStaticErr(err error) bool {
 	return errors.Is(err, ErrUnsupported) || errors.Is(err, ErrType) || errors.Is(err, ErrUnknownIdentifier) || errors.Is(err, errNotAnAggregate)
 }
 
+// recordFullScan reports a base table that is read completely (right side of a
+// JOIN, bare table name on the right of IN).
+func (q *queryCtx) recordFullScan(t *table) {
+	(&scanRec{table: t.name, offered: len(t.rows), simple: true}).finish(q, t.rows)
+}
+
 func (q *queryCtx) tableJoin(s *Select, sc *cteScope, left *relation, j *Join) (*relation, error) {
-	right, _, err := q.tableRelation(j.Table, sc)
+	right, rtbl, err := q.tableRelation(j.Table, sc)
 	if err != nil {
 		return nil, err
+	}
+	if rtbl != nil {
+		q.recordFullScan(rtbl)
 	}
 	strict := j.Strictness
 	if strict == "" {
